@@ -34,6 +34,11 @@ def run_jobs(target, jobs, nproc=16, timeout=300, env=None, on_result=None):
     running = []   # (index, proc, infile, outfile, start)
     tmpdir = tempfile.mkdtemp(prefix='vpar')
     cenv = child_env(env)
+    # every temporary file of the workers (and of the crawler processes they start, which clean up only at a
+    # normal interpreter exit) lives below this directory, which is removed when the run ends
+    scratch = os.path.join(tmpdir, 't')
+    os.makedirs(scratch)
+    cenv['TMPDIR'] = scratch
     try:
         while pending or running:
             while pending and len(running) < nproc:
